@@ -125,6 +125,10 @@ followed by `rest` -/
 def DictReadsBack (tr : Dict) (rest : Bytes) : Prop :=
   pDictionary (writeObj (.dict tr) ++ rest) = some (tr, rest)
 
+/-- general form: the written dictionary `tr` is read back as `tr'` (e.g. with reals normalised) -/
+def DictReadsBackN (tr tr' : Dict) (rest : Bytes) : Prop :=
+  pDictionary (writeObj (.dict tr) ++ rest) = some (tr', rest)
+
 theorem writeObj_dict_cons (tr : Dict) : ∃ w, writeObj (.dict tr) = 60 :: 60 :: w := by
   exact ⟨writeDictBody tr ++ [62, 62], by simp [writeObj]⟩
 
@@ -164,11 +168,11 @@ theorem noDigit_trailer (r : Bytes) : NoDigitAhead (TRAILER_KW ++ r) := by
 
 /-- `xref_and_trailer` on a written table + trailer, whatever follows the trailer dictionary
 (`tail`), given that the dictionary reads back there -/
-theorem xrefAndTrailer_table (x : XrefMap) (size : Nat) (tr : Dict) (tail : Bytes)
-    (hx : XrefMapOk x) (hs : size ≤ 4294967295) (hD : DictReadsBack tr tail)
-    (hsz : tr.get SIZE = some (.int (size : Int))) :
+theorem xrefAndTrailer_tableN (x : XrefMap) (size : Nat) (tr tr' : Dict) (tail : Bytes)
+    (hx : XrefMapOk x) (hs : size ≤ 4294967295) (hD : DictReadsBackN tr tr' tail)
+    (hsz : tr'.get SIZE = some (.int (size : Int))) :
     ∃ table, xrefAndTrailer (writeXrefTable x size ++ (TRAILER_KW ++ (writeObj (.dict tr) ++ tail)))
-        = .ok (table, size, tr) ∧
+        = .ok (table, size, tr') ∧
       (∀ n, table.get n = if 1 ≤ n ∧ n < size then normalOf x n else none) ∧
       (table.map (·.1)).Nodup := by
   obtain ⟨table, hp, hget⟩ := xref_table_rt x size (TRAILER_KW ++ (writeObj (.dict tr) ++ tail)) hx hs
@@ -193,14 +197,23 @@ theorem xrefAndTrailer_table (x : XrefMap) (size : Nat) (tr : Dict) (tail : Byte
     rw [hw]
     simp only [List.cons_append]
     exact space_nl_stop 60 _ (by decide) (by decide)
-  have hsz' : (tr.get SIZE).bind Obj.asInt = some (size : Int) := by
+  have hsz' : (tr'.get SIZE).bind Obj.asInt = some (size : Int) := by
     rw [hsz]; simp [Obj.asInt]
   have hmod : ((size : Int) % (U32 : Int)).toNat = size := by
     simp [U32]; omega
-  unfold DictReadsBack at hD
+  unfold DictReadsBackN at hD
   unfold xrefAndTrailer
   rw [hp]
   simp only [hsp, pTrailer, htg, Option.bind_some, hsp2, hD, Option.map_some, hsz', hmod]
+
+theorem xrefAndTrailer_table (x : XrefMap) (size : Nat) (tr : Dict) (tail : Bytes)
+    (hx : XrefMapOk x) (hs : size ≤ 4294967295) (hD : DictReadsBack tr tail)
+    (hsz : tr.get SIZE = some (.int (size : Int))) :
+    ∃ table, xrefAndTrailer (writeXrefTable x size ++ (TRAILER_KW ++ (writeObj (.dict tr) ++ tail)))
+        = .ok (table, size, tr) ∧
+      (∀ n, table.get n = if 1 ≤ n ∧ n < size then normalOf x n else none) ∧
+      (table.map (·.1)).Nodup :=
+  xrefAndTrailer_tableN x size tr tr tail hx hs hD hsz
 
 /-- **Loading a table save reconstructs the writer's table (C01/C03).** For every document saved
 with a classic table (file < 4 GiB, `max_id + 1 ≤ u32::MAX`, `u16` generations) whose trailer
@@ -208,12 +221,13 @@ dictionary reads back (object-level round trip): the reader finds `startxref`, a
 `xref_and_trailer` at that offset returns a table that holds `normal off g` for object `n` iff
 `1 ≤ n ≤ max_id` and the writer recorded `n ↦ (off, g)`; hence (offset invariant) every entry
 the reader holds points at the bytes `n g obj\n` of the file. `Size` read back is `max_id + 1`. -/
-theorem load_xref_of_save_table (pre : Bytes) (d : SDoc) (out : Bytes) (d' : SDoc)
+theorem load_xref_of_save_tableN (pre : Bytes) (d : SDoc) (out : Bytes) (d' : SDoc) (tr' : Dict)
     (hk : d.xrefKind = .table) (h : saveFrom pre d = some (out, d')) (hlen : out.length < 4294967296)
     (hmax : d.maxId + 1 ≤ 4294967295) (hg : GensOk d)
-    (hD : DictReadsBack d'.trailer (STARTXREF_KW ++ natDigits (bodyOf pre d).length ++ EOF_KW)) :
+    (hD : DictReadsBackN d'.trailer tr' (STARTXREF_KW ++ natDigits (bodyOf pre d).length ++ EOF_KW))
+    (hsz : tr'.get SIZE = some (.int ((d.maxId + 1 : Nat) : Int))) :
     ∃ xs table, getXrefStart out = some xs ∧ xs ≤ out.length ∧
-      xrefAndTrailer (out.drop xs) = .ok (table, d.maxId + 1, d'.trailer) ∧
+      xrefAndTrailer (out.drop xs) = .ok (table, d.maxId + 1, tr') ∧
       (∀ n, table.get n = if 1 ≤ n ∧ n < d.maxId + 1 then normalOf (xmapOf pre d) n else none) ∧
       (∀ n off g, table.get n = some (.normal off g) → HeaderAt out off n g) ∧
       (table.map (·.1)).Nodup := by
@@ -226,8 +240,8 @@ theorem load_xref_of_save_table (pre : Bytes) (d : SDoc) (out : Bytes) (d' : SDo
   have e : out = bodyOf pre d ++ (writeXrefTable (xmapOf pre d) (d.maxId + 1)
       ++ (TRAILER_KW ++ (writeObj (.dict d'.trailer) ++ tail))) := by
     rw [hout, htr, ← htail]; simp only [List.append_assoc]
-  obtain ⟨table, hxt, hget, hnodup⟩ := xrefAndTrailer_table (xmapOf pre d) (d.maxId + 1) d'.trailer tail hxok hmax hD
-    (by rw [htr, Dict.get_set_same]; simp)
+  obtain ⟨table, hxt, hget, hnodup⟩ := xrefAndTrailer_tableN (xmapOf pre d) (d.maxId + 1) d'.trailer tr' tail hxok hmax hD
+    hsz
   refine ⟨(bodyOf pre d).length, table, startxref_found pre d out d' h hlen, hb, ?_, hget, ?_, hnodup⟩
   · rw [e, List.drop_left]
     exact hxt
@@ -244,5 +258,17 @@ theorem load_xref_of_save_table (pre : Bytes) (d : SDoc) (out : Bytes) (d' : SDo
         rw [e]
         exact HeaderAt_append _ _ _ _ _ (hoff n a b hx)
     · cases hn
+
+theorem load_xref_of_save_table (pre : Bytes) (d : SDoc) (out : Bytes) (d' : SDoc)
+    (hk : d.xrefKind = .table) (h : saveFrom pre d = some (out, d')) (hlen : out.length < 4294967296)
+    (hmax : d.maxId + 1 ≤ 4294967295) (hg : GensOk d)
+    (hD : DictReadsBack d'.trailer (STARTXREF_KW ++ natDigits (bodyOf pre d).length ++ EOF_KW)) :
+    ∃ xs table, getXrefStart out = some xs ∧ xs ≤ out.length ∧
+      xrefAndTrailer (out.drop xs) = .ok (table, d.maxId + 1, d'.trailer) ∧
+      (∀ n, table.get n = if 1 ≤ n ∧ n < d.maxId + 1 then normalOf (xmapOf pre d) n else none) ∧
+      (∀ n off g, table.get n = some (.normal off g) → HeaderAt out off n g) ∧
+      (table.map (·.1)).Nodup :=
+  load_xref_of_save_tableN pre d out d' d'.trailer hk h hlen hmax hg hD
+    (by rw [(saveFrom_table_eq pre d out d' hk h).2, Dict.get_set_same]; simp)
 
 end Lopdf.FileRT
